@@ -143,3 +143,9 @@ Example C08_tracker_example :
   in_procedure (tracker l) (1%nat, 4) = true /\ in_procedure (tracker l) (0%nat, 0) = true /\
   in_procedure (tracker l) (2%nat, 0) = false /\ in_procedure (tracker l) (1%nat, 5) = false.
 Proof. vm_compute. repeat split. Qed.
+
+(* with the marks in the order the tracker visits them (points never decrease) the hypothesis above holds for the tracker's own
+   result: a point counts as inside iff it lies between the .cfi_startproc and the .cfi_endproc of a recorded procedure, ends included *)
+Theorem C08_the_tracker_reads_closed_intervals : forall lo l p, ascending lo l ->
+  (in_procedure (tracker l) p = true <-> exists s e, In (s, e) (tracker l) /\ ple s p = true /\ ple p e = true).
+Proof. exact tracker_in_procedure. Qed.
